@@ -13,7 +13,7 @@ from __future__ import annotations
 import ast
 from typing import Any, Dict, List
 
-from ..absint import App, ClassRef, ExcVal, FuncRef, Hooks, Interp, ModRef, Obj, Raised, Sym, vkey, vrepr
+from ..absint import App, Builtin, ClassRef, ExcVal, FuncRef, Hooks, Interp, ModRef, Obj, Raised, Sym, vkey, vrepr
 from ..instrmodel import MRE, T, TYPECLS, InstrHooks, mk_stack, prim_of, run_instruction, val
 from ..model import AnalysisError, Repo, dotted, norm
 from ..report import Check
@@ -186,14 +186,10 @@ def run(repo: Repo, chk: Check) -> None:
             chk.ob('R-FLOW', q, branches_ok, 'a popped value is pushed at most once per path', ex.loc, {'names_pushed_more_than_once_in_text': dup, 'in_loop': sorted(in_loop)},
                    what='a value taken from the stack is pushed back twice without duplicate(): a ticket would be duplicated')
     chk.minimum('instruction classes examined for the copy discipline', ninstr, 100)
-    # peek + push (DUP, DUP n) must go through duplicate()
-    for q in (f'{I}.stack.DupInstruction', f'{I}.stack.DupnInstruction'):
-        ex = repo.find_method(q, 'execute')
-        src = norm(ex.node)
-        chk.ob('R-FLOW', q, '.peek().duplicate()' in src and src.count('stack.push(') == 1, 'DUP copies through duplicate() (which refuses tickets)', ex.loc,
-               what='DUP pushes the peeked value itself: tickets can be duplicated')
-    dupm = repo.func(f'{T}.base.MichelsonType.duplicate')
-    chk.ob('R-GUARD', dupm.qualname, 'assert self.is_duplicable()' in norm(dupm.node), 'duplicate() asserts is_duplicable()', dupm.loc, what='duplicate() does not check duplicability')
+    # every way of COPYING a value onto the stack is refused for a non-duplicable value (a ticket, or anything containing one).
+    # Decided by interpretation with `is_duplicable()` of the value unknown: DUP / DUP n through the real duplicate() of every class that defines
+    # one, and GET through the real get() of map and big_map (the stored value stays in the collection: returning it is a copy).
+    _copy_paths(repo, chk)
     isd = repo.func(f'{T}.base.MichelsonType.is_duplicable')
     it = Interp(repo, _DupHooks(), max_depth=4)
     it.max_recursion = 4
@@ -266,6 +262,132 @@ class _TypeCls:
 
     def key(self):
         return ('typecls', self.prim, tuple(a.key() for a in self.args))
+
+
+class _CopyHooks(Hooks):
+    """values are objects of a value class; `is_duplicable()` (of the value or of a type argument) is unknown and recorded; copies are terms."""
+
+    def __init__(self, repo: Repo, cls_args=None):
+        self.repo = repo
+        self.cls_args = cls_args or {}
+
+    def inline(self, it, fi):
+        m = fi.module.name
+        if m.startswith('pytezos.michelson.instructions.') and fi.name != 'format_stdout':
+            return True
+        if fi.cls is not None and fi.cls.qualname == 'pytezos.michelson.stack.MichelsonStack':
+            return True
+        return fi.cls is not None and m.startswith(T) and fi.name in ('duplicate', 'get', '__deepcopy__', '__copy__', '__iter__', 'contains', 'get_some')
+
+    def attr(self, it, obj, name, node):
+        if isinstance(obj, ClassRef) and self.repo.is_subclass(obj.qual, 'pytezos.michelson.instructions.base.MichelsonInstruction') and name in self.cls_args:
+            return self.cls_args[name]
+        if isinstance(obj, Obj) and name == 'args' and 'args' not in obj.fields:
+            return [Sym('KeyType'), Sym('ValueType')]
+        if isinstance(obj, Obj) and name == 'prim':
+            return obj.cls.rsplit('.', 1)[-1]
+        return NotImplemented
+
+    def call(self, it, callee, args, kwargs, node):
+        if isinstance(callee, FuncRef) and callee.fi is not None:
+            n = callee.fi.name
+            if n == 'format_stdout':
+                return 'stdout'
+            if n == 'is_duplicable':
+                d = it.choose(2) == 0
+                it.event('is_duplicable', vrepr(callee.self_val)[:40], d)
+                return d
+            if n in ('assert_type_equal', 'assert_type_in'):
+                return None
+            if n in ('forge_script_expr',):
+                return Sym('key_hash')
+        if isinstance(callee, App) and callee.op == 'attr':
+            recv, name = callee.args
+            if name == 'is_duplicable':
+                d = it.choose(2) == 0
+                it.event('is_duplicable', vrepr(recv)[:40], d)
+                return d
+            if name in ('assert_type_equal', 'assert_type_in'):
+                return None
+            if name == 'pack':
+                return Sym('packed')
+            if name == 'get_big_map_value':
+                return None
+            if name == 'get_int':
+                return 2
+        if isinstance(callee, ModRef) and callee.name in ('copy.deepcopy', 'copy.copy'):
+            return App('copy-of', args[0])
+        if isinstance(callee, App) and callee.op == 'type-of':
+            return Obj(callee.args[0], dict(kwargs), tag='copy')
+        if isinstance(callee, Builtin) and callee.name == 'type' and len(args) == 1 and isinstance(args[0], Obj):
+            return App('type-of', args[0].cls)
+        if isinstance(callee, ClassRef) and self.repo.is_subclass(callee.qual, f'{T}.base.MichelsonType'):
+            return Obj(callee.qual, dict(kwargs), tag='copy')
+        return NotImplemented
+
+    def compare(self, it, op, a, b, node):
+        if op in ('==', '!=') and isinstance(a, Sym) and isinstance(b, Sym):
+            return (a.name == b.name) if op == '==' else (a.name != b.name)
+        return NotImplemented
+
+
+def _copy_paths(repo: Repo, chk: Check) -> None:
+    from ..instrmodel import mk_stack
+    MT = f'{T}.base.MichelsonType'
+    ST = 'pytezos.michelson.stack.MichelsonStack'
+    # value classes with their own duplicate(): the generic one and every override
+    owners = sorted({q for q in [MT] + repo.subclasses(MT) if 'duplicate' in repo.classes[q].methods})
+    chk.minimum('classes defining duplicate()', len(owners), 2)
+    ncopy = 0
+    for q in owners:
+        for iq, cargs, depth in ((f'{I}.stack.DupInstruction', {}, 0), (f'{I}.stack.DupnInstruction', {'args': [Sym('n')]}, 1)):
+            ex = repo.find_method(iq, 'execute')
+            hooks = _CopyHooks(repo, cargs)
+            it = Interp(repo, hooks, max_depth=6)
+
+            def go(i, q=q, ex=ex, iq=iq, depth=depth):
+                fields = {'items': [], 'ptr': Sym('ptr'), 'removed_keys': [], 'context': Sym('context')} if q.endswith('BigMapType') else {'value': Sym('payload')}
+                v = Obj(q, fields, tag='the-value')
+                st = mk_stack(([Obj(MT, {'value': Sym('other')}, tag='other')] * depth) + [v, Obj(MT, {'value': Sym('z')}, tag='z')])
+                i.call_function(FuncRef(ex, ClassRef(iq), True), [st, [], Sym('context')], {}, None, force_inline=True)
+                return list(st.fields['items'])
+
+            res = it.run_paths(go)
+            bad = []
+            for p in res:
+                flags = [e[2] for e in p.events if isinstance(e, tuple) and e[0] == 'is_duplicable']
+                if p.outcome == 'return' and (not flags or not all(flags)):
+                    bad.append('copied' + (' without asking is_duplicable()' if not flags else ' although is_duplicable() is False'))
+                if p.outcome == 'raise' and flags and all(flags):
+                    bad.append('refused a duplicable value: ' + p.value.cls)
+            ncopy += 1
+            name = q.rsplit('.', 1)[-1]
+            chk.ob('R-FLOW', q + '.duplicate', bool(res) and not bad, f'{"DUP" if depth == 0 else "DUP n"} of a {name} value copies it only when is_duplicable() holds', repo.classes[q].methods['duplicate'].loc,
+                   {'paths': len(res), 'problems': sorted(set(bad))},
+                   what=f'{"DUP" if depth == 0 else "DUP n"} on a {name} value: {sorted(set(bad))} - a ticket (or a container of tickets) can be duplicated')
+    # GET on map / big_map returns a stored value that also stays in the collection
+    for q in (f'{T}.map.MapType', f'{T}.big_map.BigMapType'):
+        g = repo.find_method(q, 'get')
+        hooks = _CopyHooks(repo)
+        it = Interp(repo, hooks, max_depth=4)
+
+        def go2(i, q=q, g=g):
+            entry = (Sym('k'), Obj(MT, {'value': Sym('stored')}, tag='stored'))
+            fields = {'items': [entry], 'ptr': Sym('ptr'), 'removed_keys': [], 'context': Sym('context')}
+            return i.call_function(FuncRef(g, Obj(q, fields, tag='coll'), True), [Sym('k')], {}, None, force_inline=True)
+
+        res = it.run_paths(go2)
+        bad = []
+        for p in res:
+            flags = [e[2] for e in p.events if isinstance(e, tuple) and e[0] == 'is_duplicable']
+            if p.outcome == 'return' and isinstance(p.value, Obj) and (not flags or not all(flags)):
+                bad.append('stored value returned' + (' without asking is_duplicable()' if not flags else ' although the value type is not duplicable'))
+        ncopy += 1
+        name = q.rsplit('.', 1)[-1]
+        chk.ob('R-FLOW', q + '.get', bool(res) and not bad, f'GET on a {name} hands out a stored value only when the value type is duplicable', g.loc,
+               {'paths': len(res), 'problems': sorted(set(bad))},
+               what=f'{name}.get (GET): {sorted(set(bad))} - a ticket stored in the collection is copied onto the stack and stays in the collection (GET_AND_UPDATE is the only way out)')
+    chk.minimum('copy paths examined', ncopy, 6)
 
 
 class _DupHooks(Hooks):
